@@ -152,3 +152,27 @@ def midpoints(llas):
     for k in range(nl - 1):
         mids[k] = (llas[k] + llas[k + 1]) / 2
     return mids
+
+
+def gcv_scores(y, w, llas):
+    """GCV score of the PLS curve at every grid lambda (C05): sum w (y - z)^2 / (n (1 - trH/n)^2), with trH from the
+    eigenvalues -2 + 2 cos(k pi / m) of the difference operator (first one replaced by 1e-15)."""
+    m = y.shape[0]
+    nl = llas.shape[0]
+    eigs = -2 + 2 * np.cos(np.arange(m) * np.pi / m)
+    eigs[0] = 1e-15
+    n = count(w)
+    scores = np.zeros(nl)
+    for k in range(nl):
+        lmda = pow(10, llas[k])
+        z = ws2d(y, lmda, w)
+        tr_h = 0.0
+        for i in range(m):
+            tr_h += w[i] / (w[i] + lmda * (eigs[i] * eigs[i]))
+        wsse = 0.0
+        for i in range(m):
+            r = y[i] - z[i]
+            wsse += w[i] * (r * r)
+        shrink = 1 - tr_h / n
+        scores[k] = wsse / (n * (shrink * shrink))
+    return scores
